@@ -11,6 +11,7 @@ import (
 	"fmt"
 	"go/ast"
 	"go/token"
+	"go/types"
 	"sort"
 	"strings"
 )
@@ -128,8 +129,11 @@ func runSkipRows(prop string) func(p *Prog, r *Report) {
 					var extra, missing []string
 					seen := map[string]bool{}
 					for _, a := range f.AllAtoms() {
-						if a == nil || a.E == nil || a.Expanded {
+						if a == nil || a.E == nil || (a.Expanded && okFlagHelper(fn, a) == nil) {
 							continue
+						}
+						if a.From != nil {
+							continue // spelled-out content of a helper's verdict: the verdict itself is judged
 						}
 						if a.E.Pos().IsValid() && (a.E.Pos() < loop.Pos() || a.E.Pos() >= loop.End()) {
 							continue // established before the loop: not a per-element condition
@@ -158,6 +162,11 @@ func runSkipRows(prop string) func(p *Prog, r *Report) {
 							}
 							if sameText(fn, txt, t) {
 								if pol == want {
+									// the flag of a search helper stands for the lookup's own ok only if
+									// the helper gives this answer exactly under the lookup's outcome
+									if h := okFlagHelper(fn, a); h != nil && isIdentTok(t) && !answersOnlyOnLookup(h, pol) {
+										continue
+									}
 									seen[rq] = true
 									okAtom = true
 								}
@@ -207,4 +216,62 @@ func runSkipRows(prop string) func(p *Prog, r *Report) {
 // element we are in) is a selector, not a data filter.
 func onlySelectsLoopElement(fn *Func, loop ast.Node, a *Atom) bool {
 	return a.E == nil
+}
+
+// answersOnlyOnLookup: every `return …, <answer>` of helper t is reached only under the
+// same outcome of a comma-ok map lookup made in t (answer false: the lookup missed).
+func answersOnlyOnLookup(t *Func, answer bool) bool {
+	info := t.Info()
+	name := "false"
+	if answer {
+		name = "true"
+	}
+	isLookupFlag := func(e ast.Expr) bool {
+		id, ok := ast.Unparen(e).(*ast.Ident)
+		if !ok {
+			return false
+		}
+		o := info.ObjectOf(id)
+		if o == nil {
+			return false
+		}
+		as := t.Assignments(o)
+		if len(as) != 1 {
+			return false
+		}
+		st, ok := as[0].(*ast.AssignStmt)
+		if !ok || len(st.Lhs) != 2 || len(st.Rhs) != 1 || !isIdentObj(info, st.Lhs[1], o) {
+			return false
+		}
+		ix, ok := ast.Unparen(st.Rhs[0]).(*ast.IndexExpr)
+		if !ok {
+			return false
+		}
+		_, isMap := info.TypeOf(ix.X).Underlying().(*types.Map)
+		return isMap
+	}
+	n, good := 0, true
+	ast.Inspect(t.Body, func(k ast.Node) bool {
+		if _, isLit := k.(*ast.FuncLit); isLit {
+			return false
+		}
+		ret, ok := k.(*ast.ReturnStmt)
+		if !ok || len(ret.Results) == 0 {
+			return true
+		}
+		last, ok := ast.Unparen(ret.Results[len(ret.Results)-1]).(*ast.Ident)
+		if !ok || (last.Name != "true" && last.Name != "false") {
+			good = false
+			return true
+		}
+		if last.Name != name {
+			return true
+		}
+		n++
+		if !t.GuardsAt(ret).Holds(func(a *Atom) bool { return a.E != nil && a.Pol == answer && isLookupFlag(a.E) }) {
+			good = false
+		}
+		return true
+	})
+	return n > 0 && good
 }
